@@ -166,6 +166,9 @@ def _strata():
     S.append(("sdpa", {"scale_kind": "none"}, "att4"))
     for ms in ("B1SK", "11SK", "SK", "BHSK", "B11K"):
         S.append(("sdpa", {"scale_kind": "post_mul", "masked": True, "mask_shape": ms}, "att4"))
+    # masks that broadcast along the QUERY axis only show with more than one query position and more than one batch entry
+    for ms in ("B11K", "111K"):
+        S.append(("sdpa", {"scale_kind": "post_mul", "masked": True, "mask_shape": ms, "_S": 3, "_B": 2}, "att4"))
     S.append(("sdpa", {"scale_kind": "pre_div", "key_bshd": True}, "att4"))
     S.append(("sdpa", {"scale_kind": "post_div", "nan_guard": False}, "att4"))
     S.append(("sdpa", {"scale_kind": "post_mul", "scale_vec": True}, "att4"))
@@ -202,6 +205,9 @@ def _strata():
     S.append(("mha_bias", {"which": "q", "bias_rank": 3}, "att3"))
     S.append(("mha_bias", {"which": "qkv", "skv_differs": True}, "att3"))
     S.append(("mha_bias", {"which": "qv", "dv_differs": True}, "att3"))
+    # partial bias WITHOUT a value bias while the value hidden size differs from the key's: the zero filler must have Dv entries
+    S.append(("mha_bias", {"which": "qk", "dv_differs": True}, "att3"))
+    S.append(("mha_bias", {"which": "q", "dv_differs": True}, "att3"))
     S.append(("mha_bias", {"which": "qkv", "dtype": "f16"}, "att3"))
     for past in (False, True):
         for ns in (False, True):
